@@ -4,4 +4,22 @@
 (* numbers - spread, scale, p, epsilon - are thinned) x every environment choice.        *)
 EXTENDS InvRoot
 MC_Cases  == Lattice({1, 2, 3, 5, 16}, {0, 8}, {-6, 0}, {1, 4}, {6}, BOOLEAN, Methods, {"f64"})
+
+(* The decimal kernel the numerical clause is evaluated with, checked against exact integer    *)
+(* arithmetic where that fits into 32 bits: sums are exact, products and reciprocals are lower  *)
+(* bounds within 0.3 %, the order is the numerical order, scaling by 10^k is exact.            *)
+ToInt(a) == IF a[1] = 0 THEN 0 ELSE IF a[2] >= 0 THEN a[1] * P10(a[2]) ELSE a[1] \div P10(-a[2])
+Small == 1..160
+ASSUME \A a \in Small, b \in Small :
+         /\ ToInt(DAddDown(DFromInt(a), DFromInt(b * 7))) = a + b * 7
+         /\ DLe(DFromInt(a), DFromInt(b)) = (a <= b)
+         /\ LET ex == a * 13 * b * 17
+                pr == ToInt(DMulDown(DFromInt(a * 13), DFromInt(b * 17)))
+            IN pr <= ex /\ pr >= ex - (ex \div 300) - 1
+ASSUME \A a \in 1..2000 :
+         LET one == DMulDown(DInvDown(DFromInt(a)), DFromInt(a))
+         IN DLe(one, DOne) /\ DLe(<<995000000, -9>>, one) /\ IsDec(DInvDown(DFromInt(a)))
+ASSUME \A k \in 0..9 : DFromInt(P10(k)) = DPow10(k) /\ DShift(DOne, k) = DPow10(k)
+ASSUME DAddDown(DPow10(0), DPow10(-12)) = DOne /\ DAddDown(DZero, DPow10(-30)) = DPow10(-30)
+ASSUME IsDec(ULo) /\ IsDec(TwoM23Lo) /\ ~IsDec(<<-1, 0>>) /\ ~IsDec(<<5, 0>>)
 ====
